@@ -11,8 +11,10 @@ import (
 	"fmt"
 	"hash/fnv"
 	"net"
+	"os"
 	"strconv"
 	"strings"
+	"time"
 
 	"mosn.io/api"
 	"mosn.io/mosn/pkg/log"
@@ -104,6 +106,29 @@ func (receiver) OnReceive(ctx context.Context, headers types.HeaderMap, data typ
 }
 func (receiver) OnDecodeError(ctx context.Context, err error, headers types.HeaderMap) {}
 
+// guard runs f with a deadline: the code under test may loop forever (and allocate without bound) on a defect.
+func guard(f func()) (hang bool) {
+	done := make(chan struct{})
+	go func() {
+		defer close(done)
+		f()
+	}()
+	select {
+	case <-done:
+		return false
+	case <-time.After(15 * time.Second):
+		return true
+	}
+}
+
+// bail emits the case that hung (as a failed connection) and leaves the process: the spinning goroutine cannot be stopped.
+func bail(c *hx.Ctx, caseToks, impl string) {
+	c.Emit("C07", caseToks, impl)
+	c.Count("HANG")
+	c.FlushNow()
+	os.Exit(0)
+}
+
 // conn is one real server stream connection with its read buffer.
 type conn struct {
 	r   *rec
@@ -183,9 +208,13 @@ type streamCase struct {
 func (s *streamCase) seg(c *hx.Ctx, chunks []int, how string) {
 	cn := newConn(s.proto)
 	off := 0
-	for _, n := range chunks {
-		cn.feed(s.stream[off : off+n])
-		off += n
+	if guard(func() {
+		for _, n := range chunks {
+			cn.feed(s.stream[off : off+n])
+			off += n
+		}
+	}) {
+		bail(c, fmt.Sprintf("seg %s %s %s %s", s.proto, hx.Hex(s.stream), ints(s.lens), ints(chunks)), "- - 1")
 	}
 	if off != len(s.stream) {
 		panic("chunks do not cover the stream")
@@ -207,9 +236,15 @@ func (s *streamCase) cuts(c *hx.Ctx) {
 	var obs []string
 	for k := 1; k < len(s.stream); k++ {
 		cn := newConn(s.proto)
-		cn.feed(s.stream[:k])
-		a := len(cn.r.frames)
-		cn.feed(s.stream[k:])
+		a := 0
+		if guard(func() {
+			cn.feed(s.stream[:k])
+			a = len(cn.r.frames)
+			cn.feed(s.stream[k:])
+		}) {
+			obs = append(obs, "0:0:00000000:1")
+			bail(c, fmt.Sprintf("cuts %s %s %s", s.proto, hx.Hex(s.stream), ints(s.lens)), strings.Join(obs, ","))
+		}
 		obs = append(obs, fmt.Sprintf("%d:%d:%s:%s", a, len(cn.r.frames), digest(cn.r.frames, cn.buf.Bytes()), flag(cn.r.errs > 0)))
 	}
 	o := "-"
@@ -421,6 +456,8 @@ func Run(c *hx.Ctx) {
 			}
 		}
 	}
+	// HTTP/2: preface + frames through the real server-side codec
+	h2Cases(c)
 	// matchers on HTTP-ish and random prefixes
 	texts := []string{"GET / HTTP/1.1\r\nHost: a\r\n\r\n", "POST /x HTTP/1.1\r\n", "CONNECT a:1 HTTP/1.1\r\n", "OPTIONS * HTTP/1.1\r\n",
 		"PRI * HTTP/2.0\r\n\r\nSM\r\n\r\n\x00\x00\x00\x04\x00\x00\x00\x00\x00", "PRI * HTTP/2.0\r\n\r\nSX\r\n\r\n", "PATCH /a", "UNLINK /", "LINK /", "GE", "GEX /",
